@@ -854,7 +854,9 @@ def f_metrics(tier="quick", seed=0):
                           "mapping": {"partitioning": {"Z": {"K": ["uniform_occupancy(A.2)"]}}, "loop-order": {"Z": lo},
                                       "spacetime": {"Z": {"space": [], "time": lo}}},
                           "extents": {"K": 3, "M": 2, "N": 2}, "sizes": {}, "arch": secs["architecture"], "bindings": secs["bindings"],
-                          "format": secs["format"], "tags": {"family": "metrics", "template": "mini-occ", "leader_first": True}})
+                          "format": secs["format"],
+                          "tags": {"family": "metrics", "template": "mini-occ",
+                                   "leader_first": not (isect == "leader-follower" and len(ir) > 1)}})
         d3 = {"A": ["M", "N"], "B": ["M", "N"], "Z": ["M", "N"]}
         for lo in (["M", "N"], ["N", "M"]):
             for lead in ("A", "B"):
